@@ -2,8 +2,8 @@
 (***************************************************************************)
 (* The calendar specification validates itself.  The initial states are    *)
 (* the 100 new-year midnights; from each a behaviour walks through all     *)
-(* days of the year (first and last millisecond of each, stepping into the *)
-(* next day), and on every WalkEvery-th day (plus the leap-day             *)
+(* days of the year (first and, if DayEdges, last millisecond of each,      *)
+(* stepping into the next day), and on every WalkEvery-th day (leap-day    *)
 (* neighbourhood and both ends of the century) through every minute        *)
 (* boundary -1 / 0 / +1 ms.  All 36 525 days are visited.  On every state  *)
 (*   * Civil(day) (table lookup) of the first day is Saturday 2000-01-01   *)
@@ -24,7 +24,7 @@
 (***************************************************************************)
 EXTENDS DateFormat, TLC
 
-CONSTANTS WalkEvery, HeavyEvery
+CONSTANTS WalkEvery, HeavyEvery, DayEdges
 
 \* the civil date of the current day
 walk == Civil(now.day)
@@ -60,7 +60,8 @@ NextMs(ms) == IF ms % 60000 = 1 THEN ms + 59998 ELSE ms + 1      \* ..0 -> ..1 -
 NextInstant(t) ==
   IF t.ms = MsPerDay - 1 THEN [day |-> t.day + 1, ms |-> 0]
   ELSE IF IsWalkDay(t.day) THEN [day |-> t.day, ms |-> NextMs(t.ms)]
-  ELSE [day |-> t.day, ms |-> MsPerDay - 1]
+  ELSE IF DayEdges THEN [day |-> t.day, ms |-> MsPerDay - 1]
+  ELSE [day |-> t.day + 1, ms |-> 0]
 
 MCInit == \E y \in Years : now = [day |-> YearStart(y), ms |-> 0] /\ obs = Helpers(now)
 MCNext == LET n == NextInstant(now) IN n.day < NDays /\ Observe(n)
